@@ -17,6 +17,12 @@ theorem sumL_eq_sum (l : List ℝ) : sumL l = l.sum := by
   | nil => simp [sumL]
   | cons x xs ih => simp [sumL, ih]
 
+/-- `alpha = loss[dB/m] · ln 10 / 10` -/
+theorem alphaOfLoss_eq (c : ℝ) : alphaOfLoss c = c * Real.log 10 / 10 := by
+  simp only [alphaOfLoss, transc_log, transc_exp, Nat.cast_ofNat, Nat.cast_one, Real.log_exp]
+  have := log10_ne
+  field_simp
+
 /-- physically meaningful loaded channel: positive loss coefficient and baud rate, non-negative power -/
 structure WF (c : LCh ℝ) : Prop where
   alpha_pos : 0 < c.alpha
